@@ -2,6 +2,11 @@
 #pragma once
 #include <theta_sketch.hpp>
 #include <theta_union.hpp>
+#include <theta_intersection.hpp>
+#include <theta_a_not_b.hpp>
+#include <tuple_union.hpp>
+#include <tuple_intersection.hpp>
+#include <tuple_a_not_b.hpp>
 #include <tuple_sketch.hpp>
 #include <array_of_doubles_sketch.hpp>
 #include <hll.hpp>
@@ -19,9 +24,14 @@ template<class S> static std::string proj_theta(const S& s, uint64_t seed) {
       .raw("theta", bv((uint64_t)s.get_theta64())).b("est", s.is_estimation_mode())
       .i("seedhash", ref_seed_hash(seed)).raw("ent", ent.done()).done();
 }
-static Read read_theta(const Bytes& b, uint64_t seed, bool compressed) {
-  auto s = compact_theta_sketch::deserialize(b.data(), b.size(), seed);
-  Bytes rs = tob(compressed ? s.serialize_compressed() : s.serialize()); return Read{proj_theta(s, seed), rs};
+static void fill_theta(Entry& e, compact_theta_sketch& c, uint64_t seed, bool compressed) {
+  fill(e, c,
+    [compressed](const compact_theta_sketch& s, bool st) {
+      if (!st) return tob(compressed ? s.serialize_compressed() : s.serialize());
+      return via_stream([&](std::ostream& os) { if (compressed) s.serialize_compressed(os); else s.serialize(os); }); },
+    [seed](const Bytes& x, bool st) { if (!st) return compact_theta_sketch::deserialize(x.data(), x.size(), seed);
+      auto is = in_stream(x); return compact_theta_sketch::deserialize(is, seed); },
+    [seed](const compact_theta_sketch& s) { return proj_theta(s, seed); });
 }
 static void cat_theta(std::vector<Entry>& out) {
   struct K { const char* kind; int lgk; int n; float p; bool ordered; uint64_t seed; };
@@ -42,10 +52,7 @@ static void cat_theta(std::vector<Entry>& out) {
     for (int v = 3; v <= 4; v++) {
       Entry e; e.family = "theta"; e.kind = std::string(k.kind) + (v == 4 ? "_c" : "");
       e.name = "theta_" + e.kind; e.hints = "{}";
-      auto b = v == 4 ? c.serialize_compressed() : c.serialize();
-      e.bytes.assign(b.begin(), b.end());
-      e.proj = proj_theta(c, seed);
-      e.reader = [seed, v](const Bytes& x) { return read_theta(x, seed, v == 4); };
+      fill_theta(e, c, seed, v == 4);
       out.push_back(e);
     }
   }
@@ -58,9 +65,12 @@ template<class S> static std::string proj_tuple(const S& s, uint64_t seed) {
       .raw("theta", bv((uint64_t)s.get_theta64())).b("est", s.is_estimation_mode())
       .i("seedhash", ref_seed_hash(seed)).raw("ent", ent.done()).done();
 }
-static Read read_tuple(const Bytes& b, uint64_t seed) {
-  auto s = compact_tuple_sketch<double>::deserialize(b.data(), b.size(), seed);
-  Bytes rs = tob(s.serialize()); return Read{proj_tuple(s, seed), rs};
+static void fill_tuple(Entry& e, compact_tuple_sketch<double>& c, uint64_t seed) {
+  fill(e, c,
+    [](const compact_tuple_sketch<double>& s, bool st) { return st ? via_stream([&](std::ostream& os) { s.serialize(os); }) : tob(s.serialize()); },
+    [seed](const Bytes& x, bool st) { if (!st) return compact_tuple_sketch<double>::deserialize(x.data(), x.size(), seed);
+      auto is = in_stream(x); return compact_tuple_sketch<double>::deserialize(is, seed); },
+    [seed](const compact_tuple_sketch<double>& s) { return proj_tuple(s, seed); });
 }
 static void cat_tuple(std::vector<Entry>& out) {
   struct K { const char* kind; int lgk; int n; float p; bool ordered; uint64_t seed; };
@@ -76,9 +86,7 @@ static void cat_tuple(std::vector<Entry>& out) {
     auto c = u.compact(k.ordered);
     uint64_t seed = k.seed;
     Entry e; e.family = "tuple"; e.kind = k.kind; e.name = "tuple_" + e.kind; e.hints = J().i("ssz", 8).done();
-    auto b = c.serialize(); e.bytes.assign(b.begin(), b.end());
-    e.proj = proj_tuple(c, seed);
-    e.reader = [seed](const Bytes& x) { return read_tuple(x, seed); };
+    fill_tuple(e, c, seed);
     out.push_back(e);
   }
 }
@@ -92,9 +100,12 @@ template<class S> static std::string proj_aod(const S& s, uint64_t seed) {
       .raw("theta", bv((uint64_t)s.get_theta64())).i("nv", s.get_num_values())
       .i("seedhash", ref_seed_hash(seed)).raw("ent", ent.done()).done();
 }
-static Read read_aod(const Bytes& b, uint64_t seed) {
-  auto s = compact_array_of_doubles_sketch::deserialize(b.data(), b.size(), seed);
-  Bytes rs = tob(s.serialize()); return Read{proj_aod(s, seed), rs};
+static void fill_aod(Entry& e, compact_array_of_doubles_sketch& c, uint64_t seed) {
+  fill(e, c,
+    [](const compact_array_of_doubles_sketch& s, bool st) { return st ? via_stream([&](std::ostream& os) { s.serialize(os); }) : tob(s.serialize()); },
+    [seed](const Bytes& x, bool st) { if (!st) return compact_array_of_doubles_sketch::deserialize(x.data(), x.size(), seed);
+      auto is = in_stream(x); return compact_array_of_doubles_sketch::deserialize(is, seed); },
+    [seed](const compact_array_of_doubles_sketch& s) { return proj_aod(s, seed); });
 }
 static void cat_aod(std::vector<Entry>& out) {
   struct K { const char* kind; int lgk; int n; int nv; float p; bool ordered; uint64_t seed; };
@@ -113,11 +124,97 @@ static void cat_aod(std::vector<Entry>& out) {
     auto c = u.compact(k.ordered);
     uint64_t seed = k.seed;
     Entry e; e.family = "aod"; e.kind = k.kind; e.name = "aod_" + e.kind; e.hints = "{}";
-    auto b = c.serialize(); e.bytes.assign(b.begin(), b.end());
-    e.proj = proj_aod(c, seed);
-    e.reader = [seed](const Bytes& x) { return read_aod(x, seed); };
+    fill_aod(e, c, seed);
     out.push_back(e);
   }
+}
+
+// ------------------------------------------------------------------ results of set operations (Theta, Tuple, array of doubles)
+// Every result state (empty, exact, estimation, non-empty with zero retained entries and theta < 1) of union / intersection / A-not-B,
+// built with a NON-default seed (and, for Theta, the default one): the result image must carry the reference hash of the configured seed.
+struct ThetaOps {
+  typedef compact_theta_sketch Compact;
+  static const char* fam() { return "theta"; }
+  static update_theta_sketch mk(int lgk, float p, uint64_t seed) { return update_theta_sketch::builder().set_lg_k((uint8_t)lgk).set_p(p).set_seed(seed).build(); }
+  static void feed(update_theta_sketch& s, long long lo, long long hi) { for (long long i = lo; i < hi; i++) s.update((int64_t)IV(i * 7919)); }
+  static theta_union mku(uint64_t seed) { return theta_union::builder().set_lg_k(5).set_seed(seed).build(); }
+  static theta_intersection mki(uint64_t seed) { return theta_intersection(seed); }
+  static theta_a_not_b mkd(uint64_t seed) { return theta_a_not_b(seed); }
+  static void fill_entry(Entry& e, Compact& c, uint64_t seed) { e.hints = "{}"; fill_theta(e, c, seed, false); }
+};
+struct TupleSum { void operator()(double& s, const double& o) const { s += o; } };
+struct TupleOps {
+  typedef compact_tuple_sketch<double> Compact;
+  static const char* fam() { return "tuple"; }
+  static update_tuple_sketch<double> mk(int lgk, float p, uint64_t seed) { return update_tuple_sketch<double>::builder().set_lg_k((uint8_t)lgk).set_p(p).set_seed(seed).build(); }
+  static void feed(update_tuple_sketch<double>& s, long long lo, long long hi) { for (long long i = lo; i < hi; i++) s.update((int64_t)IV(i * 7919), (double)(i % 5 + 1)); }
+  static tuple_union<double> mku(uint64_t seed) { return tuple_union<double>::builder().set_lg_k(5).set_seed(seed).build(); }
+  static tuple_intersection<double, TupleSum> mki(uint64_t seed) { return tuple_intersection<double, TupleSum>(seed); }
+  static tuple_a_not_b<double> mkd(uint64_t seed) { return tuple_a_not_b<double>(seed); }
+  static void fill_entry(Entry& e, Compact& c, uint64_t seed) { e.hints = J().i("ssz", 8).done(); fill_tuple(e, c, seed); }
+};
+struct AodSum { void operator()(array<double>& a, const array<double>& o) const { for (size_t i = 0; i < a.size(); i++) a[i] += o[i]; } uint8_t get_num_values() const { return 2; } };
+struct AodOps {
+  typedef compact_array_of_doubles_sketch Compact;
+  static const char* fam() { return "aod"; }
+  static update_array_of_doubles_sketch mk(int lgk, float p, uint64_t seed) {
+    return update_array_of_doubles_sketch::builder(default_array_of_doubles_update_policy(2)).set_lg_k((uint8_t)lgk).set_p(p).set_seed(seed).build(); }
+  static void feed(update_array_of_doubles_sketch& s, long long lo, long long hi) {
+    for (long long i = lo; i < hi; i++) { std::vector<double> a = {(double)(i % 7), 0.5}; s.update((int64_t)IV(i * 7919), a); } }
+  static array_of_doubles_union mku(uint64_t seed) { return array_of_doubles_union::builder(default_array_of_doubles_union_policy(2)).set_lg_k(5).set_seed(seed).build(); }
+  static array_of_doubles_intersection<AodSum> mki(uint64_t seed) { return array_of_doubles_intersection<AodSum>(seed); }
+  static array_of_doubles_a_not_b mkd(uint64_t seed) { return array_of_doubles_a_not_b(seed); }
+  static void fill_entry(Entry& e, Compact& c, uint64_t seed) { e.hints = "{}"; fill_aod(e, c, seed); }
+};
+template<class O> static void cat_setops_t(std::vector<Entry>& out, uint64_t seed, const char* stag) {
+  auto add = [&](const std::string& kind, typename O::Compact c) {
+    Entry e; e.family = O::fam(); e.kind = "op_" + kind + "_" + stag; e.name = e.family + "_" + e.kind;
+    O::fill_entry(e, c, seed); out.push_back(e);
+  };
+  // a scenario the library refuses to execute (exception) is logged as such and rejected by the specification, not a harness crash
+  auto scen = [&](const std::string& kind, std::function<typename O::Compact()> fn) {
+    try { add(kind, fn()); }
+    catch (const std::exception& ex) {
+      Entry e; e.family = O::fam(); e.kind = "op_" + kind + "_" + stag; e.name = e.family + "_" + e.kind; e.hints = "{}";
+      e.proj = "{\"threw\":true}"; e.reader = [](const Bytes&, bool) { return Read{"{\"threw\":true}", Bytes()}; };
+      out.push_back(e);
+    }
+  };
+  // operands: exact (lgK 5, 20 items), estimation (300 items), empty, "zero" = non-empty with no retained entry and theta < 1
+  auto XA = O::mk(5, 1.0f, seed); O::feed(XA, 1, 21);        auto XB = O::mk(5, 1.0f, seed); O::feed(XB, 11, 31);   // overlap 11..20
+  auto XC = O::mk(5, 1.0f, seed); O::feed(XC, 1000, 1015);                                                         // disjoint from XA
+  auto EA = O::mk(5, 1.0f, seed); O::feed(EA, 1, 301);       auto EB = O::mk(5, 1.0f, seed); O::feed(EB, 151, 451); // overlap 151..300
+  auto EC = O::mk(5, 1.0f, seed); O::feed(EC, 5000, 5300);                                                         // disjoint from EA
+  auto EM = O::mk(5, 1.0f, seed);
+  auto Z = O::mk(5, 0.0001f, seed); O::feed(Z, 1, 4);
+  scen("u_none", [&]() -> typename O::Compact { auto u = O::mku(seed); return u.get_result(); });
+  scen("u_empty", [&]() -> typename O::Compact { auto u = O::mku(seed); u.update(EM); u.update(EM); return u.get_result(); });
+  scen("u_exact", [&]() -> typename O::Compact { auto u = O::mku(seed); u.update(XA); u.update(XB); return u.get_result(); });
+  scen("u_exact_unord", [&]() -> typename O::Compact { auto u = O::mku(seed); u.update(XA); u.update(XC); return u.get_result(false); });
+  scen("u_est", [&]() -> typename O::Compact { auto u = O::mku(seed); u.update(EA); u.update(EB); return u.get_result(); });
+  scen("u_est_mixed_unord", [&]() -> typename O::Compact { auto u = O::mku(seed); u.update(EA); u.update(EM); u.update(XC); return u.get_result(false); });
+  scen("u_zero", [&]() -> typename O::Compact { auto u = O::mku(seed); u.update(Z); u.update(Z); return u.get_result(); });
+  scen("i_one_exact", [&]() -> typename O::Compact { auto x = O::mki(seed); x.update(XA); return x.get_result(); });
+  scen("i_one_est_unord", [&]() -> typename O::Compact { auto x = O::mki(seed); x.update(EA); return x.get_result(false); });
+  scen("i_overlap_exact", [&]() -> typename O::Compact { auto x = O::mki(seed); x.update(XA); x.update(XB); return x.get_result(); });
+  scen("i_overlap_est", [&]() -> typename O::Compact { auto x = O::mki(seed); x.update(EA); x.update(EB); return x.get_result(); });
+  scen("i_disjoint_exact", [&]() -> typename O::Compact { auto x = O::mki(seed); x.update(XA); x.update(XC); return x.get_result(); });
+  scen("i_disjoint_est", [&]() -> typename O::Compact { auto x = O::mki(seed); x.update(EA); x.update(EC); return x.get_result(); });           // zero retained, theta < 1
+  scen("i_overlap_then_disjoint", [&]() -> typename O::Compact { auto x = O::mki(seed); x.update(EA); x.update(EB); x.update(EC); return x.get_result(); });
+  scen("i_disjoint_then_more", [&]() -> typename O::Compact { auto x = O::mki(seed); x.update(EA); x.update(EC); x.update(EA); return x.get_result(false); });
+  scen("i_with_empty", [&]() -> typename O::Compact { auto x = O::mki(seed); x.update(EA); x.update(EM); return x.get_result(); });
+  scen("i_with_zero", [&]() -> typename O::Compact { auto x = O::mki(seed); x.update(EA); x.update(Z); return x.get_result(); });
+  scen("d_exact", [&]() -> typename O::Compact { auto d = O::mkd(seed); return d.compute(XA, XB); });
+  scen("d_est_unord", [&]() -> typename O::Compact { auto d = O::mkd(seed); return d.compute(EA, EB, false); });
+  scen("d_self_est", [&]() -> typename O::Compact { auto d = O::mkd(seed); return d.compute(EA, EA); });                                          // zero retained, theta < 1
+  scen("d_empty_a", [&]() -> typename O::Compact { auto d = O::mkd(seed); return d.compute(EM, EA); });
+  scen("d_b_empty", [&]() -> typename O::Compact { auto d = O::mkd(seed); return d.compute(EA, EM); });
+  scen("d_disjoint_exact", [&]() -> typename O::Compact { auto d = O::mkd(seed); return d.compute(XA, XC); });
+}
+static void cat_setops(std::vector<Entry>& out) {
+  cat_setops_t<ThetaOps>(out, 12345, "s12345"); cat_setops_t<ThetaOps>(out, DEFAULT_SEED, "sdef");
+  cat_setops_t<TupleOps>(out, 0xdeadbeefcafeULL, "sbeef");
+  cat_setops_t<AodOps>(out, 777, "s777");
 }
 
 // ------------------------------------------------------------------ HLL
@@ -145,6 +242,15 @@ static std::string proj_hll(const hll_sketch& s, const HllKnown& kn) {
       .raw("lb1", bv((double)s.get_lower_bound(1))).raw("ub1", bv((double)s.get_upper_bound(1)));
   return j.done();
 }
+static void fill_hll(Entry& e, hll_sketch& s, const HllKnown& kn) {
+  const bool compact = kn.compact;
+  fill(e, s,
+    [compact](const hll_sketch& h, bool st) {
+      if (!st) return tob(compact ? h.serialize_compact() : h.serialize_updatable());
+      return via_stream([&](std::ostream& os) { if (compact) h.serialize_compact(os); else h.serialize_updatable(os); }); },
+    [](const Bytes& x, bool st) { if (!st) return hll_sketch::deserialize(x.data(), x.size()); auto is = in_stream(x); return hll_sketch::deserialize(is); },
+    [kn](const hll_sketch& h) { return proj_hll(h, kn); });
+}
 static void cat_hll(std::vector<Entry>& out) {
   struct K { const char* kind; int lgk; int n; };
   const K ks[] = { {"empty", 8, 0}, {"list", 8, 3}, {"list7", 10, 7}, {"set", 10, 20}, {"set_grown", 10, 60},
@@ -157,11 +263,7 @@ static void cat_hll(std::vector<Entry>& out) {
     for (int i = 1; i <= k.n; i++) { int64_t v = (int64_t)IV((long long)i * 2654435761LL); s.update(v); kn.items.push_back(v); }
     Entry e; e.family = "hll"; e.kind = std::string(k.kind) + "_t" + tn[t] + (compact ? "_c" : "_u");
     e.name = "hll_" + e.kind; e.hints = "{}";
-    auto b = compact ? s.serialize_compact() : s.serialize_updatable();
-    e.bytes.assign(b.begin(), b.end());
-    e.proj = proj_hll(s, kn);
-    e.reader = [kn](const Bytes& x) { auto r = hll_sketch::deserialize(x.data(), x.size());
-      Bytes rs = tob(kn.compact ? r.serialize_compact() : r.serialize_updatable()); return Read{proj_hll(r, kn), rs}; };
+    fill_hll(e, s, kn);
     out.push_back(e);
   }
   // union results: both inputs in HLL mode, same lgK -> the result is marked out-of-order (HIP accumulator invalid)
@@ -174,20 +276,44 @@ static void cat_hll(std::vector<Entry>& out) {
     hll_sketch s = u.get_result((target_hll_type)t);
     Entry e; e.family = "hll"; e.kind = std::string("union_ooo_t") + tn[t] + (compact ? "_c" : "_u");
     e.name = "hll_" + e.kind; e.hints = "{}";
-    e.bytes = tob(compact ? s.serialize_compact() : s.serialize_updatable());
-    e.proj = proj_hll(s, kn);
-    e.reader = [kn](const Bytes& x) { auto r = hll_sketch::deserialize(x.data(), x.size());
-      Bytes rs = tob(kn.compact ? r.serialize_compact() : r.serialize_updatable()); return Read{proj_hll(r, kn), rs}; };
+    fill_hll(e, s, kn);
     out.push_back(e);
   }
 }
 
 // ------------------------------------------------------------------ CPC (documented preamble only)
-struct CpcKnown { uint64_t seed; bool merged; };
+// logical content of a CPC sketch = the k x 64 coupon bit matrix: REFERENCE (row, column) of every item fed (row = h1 mod k, column = min(lz(h2), 63)
+// of MurmurHash3_x64_128(item, seed)).  Matrices are compared through a 64-bit digest logged as an "H:" token (equal digests <=> equal tokens).
+struct RefMatrix {
+  int lgk; uint64_t seed; std::vector<uint64_t> rows; uint32_t c = 0;
+  RefMatrix(int lgk_, uint64_t seed_) : lgk(lgk_), seed(seed_), rows((size_t)1 << lgk_, 0) {}
+  void add(int64_t item) {
+    auto h = refhash::murmur3_x64_128(&item, 8, seed);
+    int col = h.h2 == 0 ? 64 : __builtin_clzll(h.h2); if (col > 63) col = 63;
+    uint64_t& r = rows[h.h1 & (((uint64_t)1 << lgk) - 1)]; const uint64_t bit = (uint64_t)1 << col;
+    if (!(r & bit)) { r |= bit; c++; }
+  }
+};
+static std::string matrix_token(const uint64_t* rows, size_t n) {
+  char buf[32]; snprintf(buf, sizeof buf, "\"H:%016llx\"", (unsigned long long)refhash::murmur3_x64_128(rows, n * 8, 0).h1); return buf;
+}
+struct CpcKnown { uint64_t seed; bool merged; std::string mref; };
 static std::string proj_cpc(const cpc_sketch& s, const CpcKnown& kn) {
   double hip = s.get_estimate();   // the HIP accumulator unless the sketch is a union result (then ICON, not stored)
-  return J().i("lgk", s.get_lg_k()).b("empty", s.is_empty()).i("c", s.get_num_coupons()).b("merged", kn.merged)
-      .raw("hip", bv(hip)).i("seedhash", ref_seed_hash(kn.seed)).done();
+  J j; j.i("lgk", s.get_lg_k()).b("empty", s.is_empty()).i("c", s.get_num_coupons()).b("merged", kn.merged)
+      .raw("hip", bv(hip)).i("seedhash", ref_seed_hash(kn.seed));
+#ifdef DATASKETCHES_VERIF
+  auto m = s.verif_bit_matrix();
+  std::vector<uint64_t> rows(m.begin(), m.end());
+  j.raw("mlib", matrix_token(rows.data(), rows.size())).raw("mref", kn.mref);
+#endif
+  return j.done();
+}
+static void fill_cpc(Entry& e, cpc_sketch& t, const CpcKnown& kn) {
+  fill(e, t,
+    [](const cpc_sketch& c, bool st) { return st ? via_stream([&](std::ostream& os) { c.serialize(os); }) : tob(c.serialize()); },
+    [kn](const Bytes& x, bool st) { if (!st) return cpc_sketch::deserialize(x.data(), x.size(), kn.seed); auto is = in_stream(x); return cpc_sketch::deserialize(is, kn.seed); },
+    [kn](const cpc_sketch& c) { return proj_cpc(c, kn); });
 }
 static void cat_cpc(std::vector<Entry>& out) {
   struct K { const char* kind; int lgk; int n; uint64_t seed; bool merged; };
@@ -199,19 +325,96 @@ static void cat_cpc(std::vector<Entry>& out) {
                    {"notable_lgk4_n10", 4, 10, DEFAULT_SEED, false}, {"notable_lgk4_n3000", 4, 3000, DEFAULT_SEED, false}, {"notable_lgk5", 5, 18, DEFAULT_SEED, false},
                    {"notable_lgk6", 6, 33, DEFAULT_SEED, false}, {"notable_lgk7", 7, 70, DEFAULT_SEED, false}, {"notable_lgk8", 8, 142, 4711, false},
                    {"notable_lgk8_default", 8, 142, DEFAULT_SEED, false},
-                   {"merged_notable_lgk4", 4, 10, DEFAULT_SEED, true}, {"merged_notable_lgk6", 6, 33, DEFAULT_SEED, true}, {"merged_empty", 10, 0, DEFAULT_SEED, true} };
+                   {"merged_notable_lgk4", 4, 10, DEFAULT_SEED, true}, {"merged_notable_lgk6", 6, 33, DEFAULT_SEED, true}, {"merged_empty", 10, 0, DEFAULT_SEED, true},
+                   {"merged_seed_sparse", 8, 10, 4711, true}, {"merged_seed_sliding", 6, 2000, 0xabcdef0123ULL, true}, {"merged_seed_empty", 9, 0, 31337, true} };
   for (const K& k : ks) {
     cpc_sketch s((uint8_t)k.lgk, k.seed);
-    for (int i = 1; i <= k.n; i++) s.update((int64_t)IV((long long)i * 1000003));
+    RefMatrix rm(k.lgk, k.seed);
+    for (int i = 1; i <= k.n; i++) { int64_t v = (int64_t)IV((long long)i * 1000003); s.update(v); rm.add(v); }
     cpc_sketch t = s;
     if (k.merged) { cpc_union u((uint8_t)k.lgk, k.seed); u.update(s); t = u.get_result(); }
-    CpcKnown kn{k.seed, k.merged && k.n > 0};   // the result of an empty union is a fresh (never merged) empty sketch
+    CpcKnown kn{k.seed, k.merged && k.n > 0, matrix_token(rm.rows.data(), rm.rows.size())};   // the result of an empty union is a fresh (never merged) empty sketch
     Entry e; e.family = "cpc"; e.kind = k.kind; e.name = "cpc_" + e.kind; e.hints = "{}";
-    auto b = t.serialize(); e.bytes.assign(b.begin(), b.end());
-    e.proj = proj_cpc(t, kn);
-    e.reader = [kn](const Bytes& x) { auto r = cpc_sketch::deserialize(x.data(), x.size(), kn.seed); Bytes rs = tob(r.serialize()); return Read{proj_cpc(r, kn), rs}; };
+    fill_cpc(e, t, kn);
     out.push_back(e);
   }
+}
+
+// ------------------------------------------------------------------ CPC grid: every flavor, window offset and compression phase with many coupons
+// (a) one growing sketch per lgK, a snapshot each time C passes j * K/16 (sparse, hybrid, pinned, sliding offsets 0..3, all 16 phases of each);
+// (b) lgK 10, sliding flavor: for each of the 16 phases, up to 3 item streams chosen (reference hashes only) so that the surprising values
+//     spread over as many canonical columns (column - window offset - 8) in 8..16 as a search over 1500 candidate streams finds;
+// (c) lgK 12, one snapshot per sliding phase.
+static void cpc_snapshot(std::vector<Entry>& out, const std::string& kind, const cpc_sketch& s, const RefMatrix& rm) {
+  cpc_sketch t = s;
+  CpcKnown kn{DEFAULT_SEED, false, matrix_token(rm.rows.data(), rm.rows.size())};
+  Entry e; e.family = "cpc"; e.kind = kind; e.name = "cpc_" + kind; e.hints = "{}";
+  fill_cpc(e, t, kn);
+  out.push_back(e);
+}
+static void cat_cpcgrid(std::vector<Entry>& out) {
+  char buf[64];
+  for (int lgk : {7, 10}) {
+    cpc_sketch s((uint8_t)lgk); RefMatrix rm(lgk, DEFAULT_SEED);
+    const uint32_t K = 1u << lgk; long long i = 0;
+    for (uint32_t j = 1; j <= 112; j++) {
+      while (rm.c < j * K / 16) { int64_t v = (int64_t)IV((++i) * 1000003LL); s.update(v); rm.add(v); }
+      snprintf(buf, sizeof buf, "grid_lgk%d_j%03u", lgk, j); cpc_snapshot(out, buf, s, rm);
+    }
+  }
+  { // (b) column spread at lgK 10
+    const int lgk = 10; const uint32_t K = 1u << lgk; const int NB = 1500, NP = 16;
+    std::vector<std::vector<uint32_t>> colmask(NP, std::vector<uint32_t>(NB, 0));   // bit (c - 8) set: canonical column c in 8..16 present
+    auto target = [&](int p) { return (56 + p) * K / 16 + K / 32; };
+    auto base_item = [&](int b, long long i) { return (int64_t)IV(((long long)(b + 1) << 32) + i); };
+    for (int b = 0; b < NB; b++) {
+      RefMatrix rm(lgk, DEFAULT_SEED); long long i = 0;
+      for (int p = 0; p < NP; p++) {
+        while (rm.c < target(p)) rm.add(base_item(b, ++i));
+        const long long off = (8LL * rm.c - 19LL * K) / (8LL * K);           // window offset of the sliding flavor
+        uint32_t mask = 0;
+        for (uint64_t r : rm.rows) for (int c = 8; c <= 16; c++) { const long long col = off + 8 + c; if (col < 64 && ((r >> col) & 1)) mask |= 1u << (c - 8); }
+        colmask[p][b] = mask;
+      }
+    }
+    for (int p = 0; p < NP; p++) {
+      uint32_t covered = 0;
+      for (int pick = 0; pick < 3; pick++) {
+        int best = -1, bestgain = 0;
+        for (int b = 0; b < NB; b++) { int gain = __builtin_popcount(colmask[p][b] & ~covered); if (gain > bestgain) { bestgain = gain; best = b; } }
+        if (best < 0) break;
+        covered |= colmask[p][best];
+        cpc_sketch s((uint8_t)lgk); RefMatrix rm(lgk, DEFAULT_SEED); long long i = 0;
+        while (rm.c < target(p)) { int64_t v = base_item(best, ++i); s.update(v); rm.add(v); }
+        snprintf(buf, sizeof buf, "cols_lgk10_phase%02d_%d", (56 + p) % 16, pick); cpc_snapshot(out, buf, s, rm);
+      }
+    }
+  }
+  { // (c) lgK 12
+    const int lgk = 12; const uint32_t K = 1u << lgk;
+    cpc_sketch s((uint8_t)lgk); RefMatrix rm(lgk, DEFAULT_SEED); long long i = 0;
+    for (uint32_t j = 56; j < 72; j++) {
+      while (rm.c < j * K / 16 + K / 32) { int64_t v = (int64_t)IV((++i) * 2654435761LL); s.update(v); rm.add(v); }
+      snprintf(buf, sizeof buf, "grid_lgk12_j%03u", j); cpc_snapshot(out, buf, s, rm);
+    }
+  }
+}
+
+// ------------------------------------------------------------------ CPC code tables (the entropy coder's constants ARE the wire format)
+// each row of the three published tables is confronted with the baseline record like an image (family "cpctab"): encoding_tables_for_high_entropy_byte
+// [22][256] (u16), length_limited_unary_encoding_table65 [65] (u16), column_permutations_for_encoding [16][56] (u8)
+static void cat_cpctab(std::vector<Entry>& out) {
+  auto add = [&](const std::string& kind, const void* p, size_t nbytes, const char* tab) {
+    Entry e; e.family = "cpctab"; e.kind = kind; e.name = "cpctab_" + kind; e.hints = J().str("table", tab).done();
+    e.bytes.assign((const uint8_t*)p, (const uint8_t*)p + nbytes); e.sbytes = e.bytes; e.proj = J().i("len", (long long)nbytes).done();
+    Bytes cur = e.bytes;
+    e.reader = [cur, nbytes](const Bytes&, bool) { return Read{J().i("len", (long long)nbytes).done(), cur}; };   // the current tree's row, whatever is stored
+    out.push_back(e);
+  };
+  char buf[64];
+  for (int i = 0; i < 22; i++) { snprintf(buf, sizeof buf, "byte_codes_%02d", i); add(buf, encoding_tables_for_high_entropy_byte[i], 512, "codes"); }
+  add("unary_codes_65", length_limited_unary_encoding_table65, 130, "codes");
+  for (int i = 0; i < 16; i++) { snprintf(buf, sizeof buf, "column_permutation_%02d", i); add(buf, column_permutations_for_encoding[i], 56, "perm"); }
 }
 
 } // namespace lay
